@@ -29,17 +29,10 @@ var garbageFixed = []string{
 func genGarbage(r *rand.Rand, valid []declT) string {
 	switch r.Intn(8) {
 	case 0: // a real property with a value that no property accepts
-		n := genLonghandName(r)
-		for acceptsAnything[n] && on("invalid-accepted") {
-			n = genLonghandName(r)
-		}
-		return n + ": " + pick(r, "12xyz", "7qq 7qq", "@x", "bogus(1)", "\"s\" 1 \"s\"")
+		return genLonghandName(r) + ": " + pick(r, "12xyz", "7qq 7qq", "@x", "bogus(1)", "\"s\" 1 \"s\"")
 	case 1: // the fallback idiom: same property as a valid declaration of the block, unsupported value
 		if len(valid) > 0 {
 			d := valid[r.Intn(len(valid))]
-			if acceptsAnything[d.Name] && on("invalid-accepted") {
-				break
-			}
 			return d.Name + ": " + pick(r, "12xyz", "7qq", "@x", "foo(1)", "7qq 7qq 7qq 7qq 7qq") + pick(r, "", " !important")
 		}
 	case 2: // unknown property with a valid value of a real one
@@ -50,12 +43,10 @@ func genGarbage(r *rand.Rand, valid []declT) string {
 		// a nested rule whose selector does not parse is dropped alone (repaired in c440a0b)
 		return pick(r, "12 { a: b }", "p:bogus-pseudo { color: red }", "p::: { color: red }")
 	}
-	if !on("empty-prelude-nested-rule") && r.Intn(10) == 0 {
-		// F-C08-empty-prelude-nested-rule: `{ color: red }` inside a rule is applied to the rule's own elements.
-		return "{ color: red }"
-	}
-	if !on("invalid-accepted") && r.Intn(10) == 0 {
-		return pick(r, "tab-size: red", "bleed-left: red", "transform-origin: red blue")
+	if r.Intn(10) == 0 {
+		// a nested rule with an empty selector is invalid and must not style the parent (repaired in 59e89fe);
+		// validators that used to accept anything (repaired): tab-size, bleed-*, transform-origin, font-feature-settings
+		return pick(r, "{ color: red }", "tab-size: red", "bleed-left: red", "transform-origin: red blue", "font-feature-settings: \"liga\" 7qq", "margin: 1px inherit", "font: 12px/")
 	}
 	return garbageFixed[r.Intn(len(garbageFixed))]
 }
